@@ -814,19 +814,16 @@ Qed.
 Definition nrm_B (m : modl) : modl := set_tc false (set_comp None (set_impl false (set_feats [] m))).
 
 (* the state after the feature states were remembered *)
-Definition saved (t : state) (k : key) (sel : fsel) (m : modl) : state :=
-  match sel with
-  | FNull => t
-  | _ => with_featsaved (featsaved t ++ [(k, map f_on (m_feats m))]) t
-  end.
+Definition saved (t : state) (k : key) (sel : fsel) (m : modl) : state := feat_backup t k sel m.
 
 Lemma mods_saved t k sel m : mods (saved t k sel m) = mods t.
-Proof. destruct sel; reflexivity. Qed.
+Proof. unfold saved, feat_backup. destruct sel; reflexivity. Qed.
 Lemma implementing_saved t k sel m : implementing (saved t k sel m) = implementing t.
-Proof. destruct sel; reflexivity. Qed.
+Proof. unfold saved, feat_backup. destruct sel; reflexivity. Qed.
 
 Inductive si_case (t : state) (k : key) (sel : fsel) : state * bool -> Prop :=
 | SiNone : find_mod k (mods t) = None -> si_case t k sel (t, false)
+| SiDenied m : find_mod k (mods t) = Some m -> si_case t k sel (t, false)
 | SiFail m : find_mod k (mods t) = Some m -> si_case t k sel (saved t k sel m, false)
 | SiSame m : find_mod k (mods t) = Some m -> si_case t k sel (saved t k sel m, true)
 | SiFeat m fs : find_mod k (mods t) = Some m -> m_impl m = true -> set_features (m_feats m) sel = SfOk fs ->
@@ -844,10 +841,10 @@ Proof. destruct x; reflexivity. Qed.
 Lemma set_implemented_cases t k sel : si_case t k sel (set_implemented t k sel).
 Proof.
   unfold set_implemented. destruct (find_mod k (mods t)) as [m|] eqn:F; [|constructor; exact F].
-  fold (saved t k sel m). rewrite (mods_saved t k sel m).
+  fold (saved t k sel m).
   destruct (m_impl m) eqn:Ei.
   - destruct (set_features (m_feats m) sel) as [fs| |] eqn:Es; try (econstructor; eassumption).
-  - destruct (get_implemented (m_name m) (mods t)); [eapply SiFail; exact F|].
+  - destruct (get_implemented (m_name m) (mods t)); [eapply SiDenied; exact F|].
     destruct (set_features (m_feats m) sel) as [fs| |] eqn:Es; [| |eapply SiFail; exact F].
     + rewrite let_fst_true. cbn [upd_s with_mods mods with_implementing implementing add_ev].
       rewrite upd_length, (mods_saved t k sel m), (implementing_saved t k sel m).
@@ -957,6 +954,11 @@ Qed.
 
 Lemma mark_depset_QI s imp D ds t : QI s imp D t -> QI s imp D (mark_depset ds t).
 Proof. intros Q. unfold mark_depset. destruct (existsb _ ds); [apply fold_mark_QI|]; exact Q. Qed.
+Lemma mark_all_QI s imp D dss t : QI s imp D t -> QI s imp D (mark_all dss t).
+Proof. intros Q. unfold mark_all. apply fold_mark_QI. exact Q. Qed.
+Lemma mark_all_same_but dss t : same_but no_tc t (mark_all dss t).
+Proof. unfold mark_all. apply fold_mark_same_but. Qed.
+
 Lemma mark_depset_same_but ds t : same_but no_tc t (mark_depset ds t).
 Proof. unfold mark_depset. destruct (existsb _ ds); [apply fold_mark_same_but|apply same_but_refl]. Qed.
 
@@ -1810,8 +1812,9 @@ Proof.
   assert (Hdc : forall t2, frame_eq t t2 -> frame_eq t (fst (fst (if explicit t2 then (t2, [], true) else dc t2 k)))).
   { intros t2 F2. destruct (explicit t2); [exact F2|]. eapply frame_eq_trans; [exact F2|].
     apply (same_but_frame no_tc_comp); [intros m; reflexivity|apply dc_same_but]. }
-  assert (Hsv : forall m, frame_eq t (saved t k sel m)) by (intros m; destruct sel; constructor; reflexivity).
-  destruct (set_implemented_cases t k sel) as [F|m F|m F|m fs F Hi Hs|m fs F Hi Hs]; cbn [negb fst].
+  assert (Hsv : forall m, frame_eq t (saved t k sel m)) by (intros m; unfold saved, feat_backup; destruct sel; constructor; reflexivity).
+  destruct (set_implemented_cases t k sel) as [F|m F|m F|m F|m fs F Hi Hs|m fs F Hi Hs]; cbn [negb fst].
+  - apply frame_eq_refl.
   - apply frame_eq_refl.
   - apply Hsv.
   - apply Hdc. apply Hsv.
@@ -2228,8 +2231,10 @@ Proof.
     intros m. destruct (kmem (mkey m) (implementing t0)); reflexivity. }
   pose proof (fold_rm_step_LJ (creating s1) s1 dss J1) as J2.
   destruct (fold_left rm_step (creating s1) (s1, dss)) as [s2 dss2]. cbn [fst] in J2.
-  assert (J3 : LJs (fst (compile_all dss2 s2))).
-  { unfold LJs. eapply LJ_kl; [|exact J2]. apply (same_but_kl no_tc_comp); [intros m; split; reflexivity|apply same_but_compile_all]. }
+  assert (J3 : LJs (fst (compile_all dss2 (mark_all dss2 s2)))).
+  { unfold LJs. eapply LJ_kl; [|exact J2].
+    rewrite (same_but_kl no_tc_comp _ _ (fun x => conj eq_refl eq_refl) (same_but_compile_all dss2 (mark_all dss2 s2))).
+    apply (same_but_kl no_tc _ _ (fun x => conj eq_refl eq_refl) (mark_all_same_but dss2 s2)). }
   destruct (implementing s2); [destruct (featsaved s2)|]; assumption.
 Qed.
 
@@ -2240,7 +2245,8 @@ Proof.
             kl (mods (fst (fst (if explicit t2 then (t2, [], true) else dc t2 k)))) = kl (mods t)).
   { intros t2 E2. destruct (explicit t2); [exact E2|]. rewrite <- E2.
     apply (same_but_kl no_tc_comp); [intros m; split; reflexivity|apply dc_same_but]. }
-  destruct (set_implemented_cases t k sel) as [F|m F|m F|m fs F Hi Hs|m fs F Hi Hs]; cbn [negb fst].
+  destruct (set_implemented_cases t k sel) as [F|m F|m F|m F|m fs F Hi Hs|m fs F Hi Hs]; cbn [negb fst].
+  - reflexivity.
   - reflexivity.
   - rewrite mods_saved. reflexivity.
   - apply Hdc. rewrite mods_saved. reflexivity.
@@ -2759,23 +2765,33 @@ Proof.
   assert (Hfs2 : featsaved s2 = featsaved mid) by reflexivity.
   rewrite Himp2, Hfs2.
   (* the recompilation of the previous context *)
-  assert (Hrec : Forall2 frel (mods s) (mods (erase (fst (compile_all dss2 s2))))).
-  { assert (H2 : healthy s2).
-    { intros m'' Hin Htc. destruct (Forall2_In_r _ _ _ _ FU Hin) as [m0 [_ [H0 [Hr [Hf _]]]]].
+  assert (Hrec : Forall2 frel (mods s) (mods (erase (fst (compile_all dss2 (mark_all dss2 s2)))))).
+  { pose proof (mark_all_QI s [] (concat dss2) dss2 s2 Q2) as Q2m.
+    pose proof (no_tc_weaken _ _ (mark_all_same_but dss2 s2)) as S2m.
+    pose proof (FE_same_but s s2 (mark_all dss2 s2) S2m F2) as F2m.
+    assert (J2m : LJs (mark_all dss2 s2)).
+    { unfold LJs. eapply LJ_kl; [|exact J2]. apply (same_but_kl no_tc_comp); [intros m; split; reflexivity|exact S2m]. }
+    assert (Hlen2m : length (mods (mark_all dss2 s2)) = length (mods s)).
+    { rewrite <- Hlen2. pose proof (f_equal (@length _) (sb_mods _ _ _ S2m)) as E. rewrite !map_length in E. exact E. }
+    assert (Holds2m : olds_of s (mark_all dss2 s2) = mods (mark_all dss2 s2)) by (unfold olds_of; rewrite <- Hlen2m; apply firstn_all).
+    clear J2. set (s2m := mark_all dss2 s2) in *.
+    assert (H2 : healthy s2m).
+    { pose proof (Forall2_with_In _ _ _ (Forall2_conj _ _ _ _ (qi_olds _ _ _ _ Q2m) F2m)) as FUm. rewrite Holds2m in FUm.
+      intros m'' Hin Htc. destruct (Forall2_In_r _ _ _ _ FUm Hin) as [m0 [_ [H0 [Hr [_ Hf]]]]].
       destruct Hr as [R1 R2 R3 R4 R5 R6 R7 R8 R9 R10 R11].
       rewrite (compiles_ok_ext m0 m'' Hf R3). destruct (R7 (R9 Htc)) as [Hi|[]].
       apply (wf_comp_impl _ _ (wfs_mods _ W m0 H0) Hi). }
     assert (Hd2 : forall ds, In ds dss2 -> incl ds (concat dss2)).
     { intros ds Hin x Hx. apply in_concat. exists ds. tauto. }
-    destruct (compile_all_QI s [] (concat dss2) W dss2 s2 Q2 F2 Hd2) as [Q3 S3].
-    destruct (compile_all_ok s (concat dss2) W dss2 s2 Q2 F2 H2 Hd2) as [_ [_ T3]].
-    set (s3 := fst (compile_all dss2 s2)) in *.
+    destruct (compile_all_QI s [] (concat dss2) W dss2 s2m Q2m F2m Hd2) as [Q3 S3].
+    destruct (compile_all_ok s (concat dss2) W dss2 s2m Q2m F2m H2 Hd2) as [_ [_ T3]].
+    set (s3 := fst (compile_all dss2 s2m)) in *.
     assert (Hlen3 : length (mods s3) = length (mods s)).
-    { rewrite <- Hlen2. pose proof (f_equal (@length _) (sb_mods _ _ _ S3)) as E. rewrite !map_length in E. exact E. }
+    { rewrite <- Hlen2m. pose proof (f_equal (@length _) (sb_mods _ _ _ S3)) as E. rewrite !map_length in E. exact E. }
     assert (Holds3 : olds_of s s3 = mods s3) by (unfold olds_of; rewrite <- Hlen3; apply firstn_all).
-    pose proof (FE_same_but s s2 s3 S3 F2) as F3.
+    pose proof (FE_same_but s s2m s3 S3 F2m) as F3.
     assert (J3 : LJs s3).
-    { unfold LJs. eapply LJ_kl; [|exact J2]. apply (same_but_kl no_tc_comp); [intros m; split; reflexivity|exact S3]. }
+    { unfold LJs. eapply LJ_kl; [|exact J2m]. apply (same_but_kl no_tc_comp); [intros m; split; reflexivity|exact S3]. }
     cbn [erase with_featsaved with_implementing with_creating mods].
     assert (FK : Forall2 (fun m m' => mkey m' = mkey m) (mods s) (mods s3)).
     { rewrite <- Holds3. eapply Forall2_impl; [|exact (qi_olds _ _ _ _ Q3)]. intros a b Hr. apply (q_key _ _ _ _ Hr). }
@@ -2839,10 +2855,10 @@ Proof.
 Qed.
 
 Lemma saved_explicit t k sel m : explicit (saved t k sel m) = explicit t.
-Proof. destruct sel; reflexivity. Qed.
+Proof. unfold saved, feat_backup. destruct sel; reflexivity. Qed.
 Lemma saved_featsaved t k sel m : featsaved t = [] ->
   (sel = FNull /\ featsaved (saved t k sel m) = []) \/ (sel <> FNull /\ featsaved (saved t k sel m) = [(k, map f_on (m_feats m))]).
-Proof. intros H. destruct sel; cbn; rewrite ?H; [left; tauto|right; split; [discriminate|reflexivity]..]. Qed.
+Proof. intros H. unfold saved, feat_backup. destruct sel; cbn; rewrite ?H; [left; tauto|right; split; [discriminate|reflexivity]..]. Qed.
 
 Lemma Forall2_refl_In {A} (l : list A) : Forall2 (fun x x' => In x l /\ x' = x) l l.
 Proof.
@@ -2918,8 +2934,12 @@ Proof.
   destruct (PI_frame s t1 mid P Fr) as [Hnd [Hko Hcr]].
   pose proof (PI_QI s t1 W P) as Q1. pose proof (pi_fsaved _ _ P) as Hf1. pose proof (pi_impl _ _ P) as Hi1.
   rewrite iac_unfold in E.
-  destruct (set_implemented_cases t1 k sel) as [Fn|m Fm|m Fm|m fs Fm Hi Hs|m fs Fm Hi Hs]; cbn [negb] in E.
+  destruct (set_implemented_cases t1 k sel) as [Fn|m Fm|m Fm|m Fm|m fs Fm Hi Hs|m fs Fm Hi Hs]; cbn [negb] in E.
   - (* the module is not there (does not happen) *)
+    inversion E; subst mid dss.
+    apply (revert_restores s [] [] t1 W Q1); [|exact Js|exact Jm|exact Hi1|exact Hcr|reflexivity].
+    rewrite (restore_features_nil t1 Hf1). apply PI_FE'. exact P.
+  - (* another revision is implemented: nothing was touched after the parse phase *)
     inversion E; subst mid dss.
     apply (revert_restores s [] [] t1 W Q1); [|exact Js|exact Jm|exact Hi1|exact Hcr|reflexivity].
     rewrite (restore_features_nil t1 Hf1). apply PI_FE'. exact P.
